@@ -130,11 +130,14 @@ Proof.
     try (intros p []).
   - destruct (has_peer i ps); cbn [peers_of]; [exact H|].
     intros p Hin Hp. apply in_app_or in Hin. destruct Hin as [Hin|[<-|[]]]; [now apply H|discriminate].
-  - intros p Hin Hp. apply in_map_iff in Hin. destruct Hin as [q [<- Hq]].
+  - destruct (has_peer i ps); cbn [peers_of]; [|exact H].
+    intros p Hin Hp. apply in_map_iff in Hin. destruct Hin as [q [<- Hq]].
     destruct ((pr_id q =? i) && pr_eor q); [reflexivity|]. now apply H.
-  - intros p Hin Hp. apply in_map_iff in Hin. destruct Hin as [q [<- Hq]].
+  - destruct (has_peer i ps); cbn [peers_of]; [|exact H].
+    intros p Hin Hp. apply in_map_iff in Hin. destruct Hin as [q [<- Hq]].
     destruct (pr_id q =? i); [discriminate|]. now apply H.
-  - intros p Hin Hp. apply filter_In in Hin. now apply H.
+  - destruct (has_peer i ps); cbn [peers_of]; [|exact H].
+    intros p Hin Hp. apply filter_In in Hin. now apply H.
 Qed.
 
 Lemma filter_le_filter : forall (f g : rpeer -> bool) l, (forall p, In p l -> f p = true -> g p = true) ->
